@@ -279,6 +279,31 @@ class Engine:
                 else:
                     p.store[k] = old
             return ("gen", elt, it)
+        if isinstance(e, (ast.GeneratorExp, ast.ListComp, ast.SetComp, ast.DictComp)) and self.track_exc:
+            # comprehension of another form: its value stays opaque, but the iterables, filters and element expressions are evaluated once with the
+            # targets bound to `some element`, so that the potential exception sites inside them are seen
+            saved = {}
+            try:
+                for g in e.generators:
+                    it = self.ev(g.iter, p, fr)
+                    names = [g.target] if isinstance(g.target, ast.Name) else [t for t in getattr(g.target, "elts", []) if isinstance(t, ast.Name)]
+                    for i, t in enumerate(names):
+                        k = ("l", fr["id"], t.id)
+                        saved.setdefault(k, p.store.get(k))
+                        p.store[k] = ("iter", it, e.lineno) if isinstance(g.target, ast.Name) else ("sub", ("iter", it, e.lineno), ("c", i))
+                    for c in g.ifs:
+                        self.ev(c, p, fr)
+                for sub in ([e.key, e.value] if isinstance(e, ast.DictComp) else [e.elt]):
+                    self.ev(sub, p, fr)
+            except Unsupported:
+                pass
+            finally:
+                for k, old in saved.items():
+                    if old is None:
+                        p.store.pop(k, None)
+                    else:
+                        p.store[k] = old
+            return ("opaque", ast.unparse(e))
         if isinstance(e, (ast.GeneratorExp, ast.ListComp, ast.Lambda, ast.Dict)):
             return ("opaque", ast.unparse(e))
         if isinstance(e, (ast.Yield, ast.YieldFrom)):
@@ -300,7 +325,7 @@ class Engine:
 
     def cmp(self, op, a, b):
         # canonical: constant on the right; Gt/GtE turned to Lt/LtE by swapping
-        if a[0] == "c" and b[0] != "c":
+        if a[0] == "c" and b[0] != "c" and op not in ("In", "NotIn"):
             sw = {"Lt": "Gt", "Gt": "Lt", "LtE": "GtE", "GtE": "LtE"}
             a, b, op = b, a, sw.get(op, op)
         if a[0] == "c" and b[0] == "c":
@@ -577,7 +602,28 @@ class Engine:
                 T += t
                 F += f
             return T, F
+        # truth of an object of a repository class that defines __len__ (and no __bool__) is `len(x) != 0` -- once the path knows it is not None
+        if isinstance(sv, tuple) and sv and sv[0] in ("f0", "l", "new", "p"):
+            ck = self.sv_class(sv, fr)
+            if ck and self.M.find_method(ck, "__len__") is not None and self.M.find_method(ck, "__bool__") is None:
+                s0 = strip_epoch(sv)
+                known = sv[0] == "new" or any(strip_epoch(g) == ("cmp", "Is", s0, ("c", None)) and not pol for g, pol, _ in p.guards)
+                if known:
+                    return self.branch(("cmp", "NotEq", self.len_of(sv, p, fr), ("c", 0)), p, getattr(test, "lineno", 0))
         return self.branch(sv, p, getattr(test, "lineno", 0))
+
+    def len_of(self, x, p, fr):
+        M = self.M
+        ck = self.sv_class(x, fr)
+        if ck and (self.inline_sub or x == ("self0",)):
+            m = M.find_method(ck, "__len__")
+            if m:
+                r = self.inline_pure(m, x, [], p, fr)
+                if r is not None:
+                    return r
+        if x[0] == "new" and self.version(x, p) == 0 and self.fresh_len_zero(x[1]):
+            return ("c", 0)
+        return ("len", x, self.version(x, p))
 
     def frame(self, fn: Func, recv, args, parent):
         params = dict(zip(fn.params, args))
@@ -596,16 +642,7 @@ class Engine:
             if f.id == "cast" and len(args) == 2:
                 return args[1]
             if f.id == "len" and len(args) == 1:
-                ck = self.sv_class(args[0], fr)
-                if ck and (self.inline_sub or args[0] == ("self0",)):
-                    m = M.find_method(ck, "__len__")
-                    if m:
-                        r = self.inline_pure(m, args[0], [], p, fr)
-                        if r is not None:
-                            return r
-                if args[0][0] == "new" and self.version(args[0], p) == 0 and self.fresh_len_zero(args[0][1]):
-                    return ("c", 0)
-                return ("len", args[0], self.version(args[0], p))
+                return self.len_of(args[0], p, fr)
             ck = M.lookup_class_name(fr["fn"].mod, f.id)
             if ck:
                 if self.track_exc:
@@ -1022,6 +1059,11 @@ class Engine:
             ck = self.sv_class(recv, fr)
             if ck:
                 callee = M.find_method(ck, f.attr)
+            if callee is None and recv[0] == "class" and recv[1] in M.classes:
+                cm = M.find_method(recv[1], f.attr)
+                if cm is not None and cm.kind in ("static", "classmethod"):
+                    # static / class method called through the class name: the same value as in an expression (no effect on the objects analysed)
+                    return [(p, ("call", "." + f.attr, (recv,) + tuple(args), e.lineno))]
             if callee is None and f.attr in MUTATORS:
                 # mutation of a builtin container held in a field/local
                 key = self.sv_key(f.value, p, fr)
